@@ -49,6 +49,14 @@ def run(res, proofs_ok, proofs_why):
         rec = "%d %d %d 0 %d %d %d" % (a[0], a[1], a[0] + 1000, bound, drift, rng.choice([1, 2]))
         olines.append("ord %s %d %d %d %d %d" % (rec, r[0], r[1], mo[0], mo[1], delta))
         mlines.append("cba %s %d %d %d %d" % (rec, r[0], r[1], mo2[0], mo2[1]))   # model: real first, mono delta later
+        if rng.random() < 0.5:
+            # the next call on the same thread, its realtime reading almost the same, the monotonic clock
+            # further on: every call must read both clocks itself, realtime first
+            real_b = real + rng.choice([0, 1, 1000, 500000, 999999])
+            mono_b = mono + delta + rng.choice([1, 1000, 10 ** 6, 30 * NS_])
+            rb, mb, mb2 = K.ts(real_b), K.ts(mono_b), K.ts(mono_b + delta)
+            olines.append("ord %s %d %d %d %d %d" % (rec, rb[0], rb[1], mb[0], mb[1], delta))
+            mlines.append("cba %s %d %d %d %d" % (rec, rb[0], rb[1], mb2[0], mb2[1]))
     oimpl = c.run_lines(binary, olines)
     omodel = c.run_model(mlines)
     client_orders = set()
